@@ -330,15 +330,19 @@ def r4_r5_derived(chk):
         chk.require(res is not None, f"Structure.{name}: result variable not found")
         apps = [c for c in walk_no_nested(f.node) if isinstance(c, ast.Call) and norm(c.func) in (f"{res}.append_bond", f"{res}.append_bonds", f"{res}.extend_bonds")]
         chk.require(apps, f"Structure.{name}: no bonds are appended to the product")
+        from ..canon import Env
+
+        env = Env(f.node)
+        # the locals that map source atoms to the product's copies: defined from <res>.atoms
+        maps = {nm for nm, vals in asg.items() if len(vals) == 1 and isinstance(vals[0], (ast.Call, ast.DictComp))
+                and f"{res}.atoms" in norm(vals[0]) and ("zip" in norm(vals[0]) or isinstance(vals[0], ast.DictComp))}
         for c in apps:
-            a0 = c.args[0]
-            if isinstance(a0, ast.NamedExpr):
-                a0 = a0.value
+            a0 = env.expand(c.args[0], keep=maps | {res})
             fresh = isinstance(a0, ast.Call) and (call_name(a0) == "Bond" or (isinstance(a0.func, ast.Attribute) and a0.func.attr == "evolve"))
             ends_ok = True
             if fresh and isinstance(a0.func, ast.Attribute) and a0.func.attr == "evolve":
                 k1, k2 = kwarg(a0, "a1"), kwarg(a0, "a2")
-                ends_ok = k1 is not None and k2 is not None and "atom_map" in norm(k1) and "atom_map" in norm(k2)
+                ends_ok = k1 is not None and k2 is not None and all(isinstance(k, ast.Subscript) and norm(k.value) in maps for k in (k1, k2))
             if fresh and call_name(a0) == "Bond":
                 ends_ok = all(res in names_in(x) for x in a0.args[:2])
             chk.decide(fresh and ends_ok, "C06.R4", f"{f.key}:bond:{short(a0, 40)}", f.where(c), "appended bond is an evolve(...) onto product atoms / a fresh Bond",
